@@ -155,8 +155,8 @@ def run_check(prop, tier):
     t0 = time.time()
     seed = get_seed()
     plan = plans.PLANS[prop]
-    if 'custom' in plan:
-        return plan['custom'](prop, tier, seed)
+    if plan.get('custom'):
+        return globals()[plan['custom']](prop, tier, seed)
     known, fixed = load_known(prop)
     known_sigs = [k['sig'] for k in known]
     specs, jobs, failed_builds = build_jobs(prop, plan, tier, seed, known_sigs)
@@ -351,3 +351,207 @@ def replay_failure_multi(prop, plan, spec, concrete, times=3):
             for s_ in suts.values():
                 s_.close()
     return out, sig
+
+
+# ------------------------------------------------------------------------------------------------ C14 (three sub-checks)
+def c14_run(prop, tier, seed):
+    import subprocess, shutil
+    from . import emit_fe, pumlguard, oracles
+    t0 = time.time()
+    plan = plans.PLANS[prop]
+    quick = tier == 'quick'
+    lines, violations = [], 0
+    known, fixed = load_known(prop)
+    known_sigs = [k['sig'] for k in known]
+    # ---- A. front-end differential --------------------------------------------------------------
+    specsA = [specgen.gen_spec('frontlang', seed, i) for i in range(3 if quick else 12)]
+    specsB = [specgen.gen_spec('frontlang2', seed, i) for i in range(2 if quick else 8)]
+    todo = []
+    for sp in specsA:
+        for cfg in (1, 4, 5) if quick else (1, 2, 4, 5, 7):
+            todo.append((sp, 0 * 10 + cfg, emit.emit_cpp(sp), cfg, ()))
+            todo.append((sp, 1 * 10 + cfg, emit_fe.emit_basic(sp), cfg, ()))
+            todo.append((sp, 2 * 10 + cfg, emit_fe.emit_puml(sp, 0), cfg, ('-std=gnu++20',)))
+            todo.append((sp, 3 * 10 + cfg, emit_fe.emit_puml(sp, 1 + (seed % 3)), cfg, ('-std=gnu++20',)))
+    for sp in specsB:
+        for cfg in (1, 5):
+            todo.append((sp, 0 * 10 + cfg, emit.emit_cpp(sp), cfg, ()))
+            todo.append((sp, 1 * 10 + cfg, emit_fe.emit_basic(sp), cfg, ()))
+    built = build.build_many([(cpp, cfg, 'plain', extra, ()) for (sp, key, cpp, cfg, extra) in todo])
+    failed = []
+    groups = {}
+    for (sp, key, cpp, cfg, extra), (b, log) in zip(todo, built):
+        if not b:
+            failed.append(dict(spec=sp['id'], variant=oracles.FE_NAMES[key // 10], cfg=build.CONFIGS[cfg], log=log[-600:]))
+            continue
+        groups.setdefault((sp['id'], cfg), (sp, {}))[1][key] = b
+    jobs = []
+    nex = 200 if quick else 1500
+    for (sid, cfg), (sp, bins) in groups.items():
+        if len(bins) >= 2:
+            jobs.append(dict(spec=sp, cfg=sorted(bins)[0], bins=bins, prop=prop, oracle='C14', cp=dict(max_ops=20, kinds=['P', 'P', 'P', 'P', 'T'], auto_probe=True),
+                             max_examples=nex, seed=seed, known_sigs=tuple(known_sigs), tier=tier))
+    with ProcessPoolExecutor(max_workers=int(os.environ.get('VERIF_JOBS', '16'))) as ex:
+        results = list(ex.map(engine.run_job_multi, jobs))
+    evalA = sum(r['evaluations'] for r in results)
+    ntA = set()
+    classes = {}
+    samples = []
+    errors = []
+    for job, r in zip(jobs, results):
+        ntA.update(r['nontrivial'])
+        for k, n in r['classes'].items():
+            classes[k] = classes.get(k, 0) + n
+        if r['samples'] and len(samples) < 3:
+            samples.append(dict(part='front-end differential', spec=r['spec'], backend=build.CONFIGS[job['cfg'] % 10], case=r['samples'][0],
+                                puml=emit_fe.puml_text(job['spec'], 0).split('\n')[2:8]))
+        if r.get('error'):
+            errors.append(dict(spec=r['spec'], error=r['error'][-800:]))
+        if r.get('failure'):
+            f = r['failure']
+            p = save_replay(prop, job['spec'], job['cfg'] % 10, dict(case=f['case'], msg=f['msg'], sig=f.get('sig'), detail=dict(f.get('detail') or {}, part='frontend', bins=sorted(job['bins']))))
+            lines.append('VIOLATION property=%s replay=%s' % (prop, p))
+            lines.append('  ' + f['msg'][:500])
+            violations += 1
+    # ---- B. PlantUML tokenizer fuzzing (libFuzzer + ASan/UBSan, oracle inside the target) ---------------
+    fz_dir = os.path.join(build.BUILD, 'puml_fuzz_' + build.tree_hash()[:16])
+    os.makedirs(fz_dir, exist_ok=True)
+    fz_bin = os.path.join(fz_dir, 'puml_fuzz')
+    tok = dict(docs=0, rows=0, nontrivial_rows=0, distinct_nontrivial=0)
+    if not os.path.exists(fz_bin):
+        c = subprocess.run(['clang++', '-std=gnu++20', '-g', '-O1', '-fsanitize=fuzzer,address,undefined', '-fno-sanitize-recover=undefined',
+                            '-I' + os.path.join(build.REPO, 'include'), os.path.join(build.HARNESS, 'puml_fuzz.cpp'), '-o', fz_bin + '.tmp'],
+                           capture_output=True, text=True)
+        if c.returncode != 0:
+            errors.append(dict(error='puml_fuzz does not build: ' + c.stderr[-1500:]))
+        else:
+            os.rename(fz_bin + '.tmp', fz_bin)
+    sample_doc = None
+    if os.path.exists(fz_bin):
+        corpus = os.path.join(fz_dir, 'corpus_%d_%s' % (seed, tier))
+        shutil.rmtree(corpus, ignore_errors=True)
+        os.makedirs(corpus)
+        art = os.path.join(VERIF, 'replays', 'new')
+        os.makedirs(art, exist_ok=True)
+        runs = 40000 if quick else 3000000
+        nproc = 1 if quick else 8
+        procs = []
+        for w_ in range(nproc):
+            env = dict(os.environ, PUML_FUZZ_STATS=os.path.join(fz_dir, 'stats_%d.json' % w_), PUML_FUZZ_SAMPLE=os.path.join(fz_dir, 'sample_%d.txt' % w_))
+            procs.append(subprocess.Popen([fz_bin, '-seed=%d' % (seed * 100 + w_ + 1), '-runs=%d' % (runs // nproc), '-max_len=512', '-artifact_prefix=' + art + '/C14_pumltok_',
+                                           '-print_final_stats=0', corpus], env=env, stdout=subprocess.PIPE, stderr=subprocess.STDOUT, text=True))
+        for w_, p in enumerate(procs):
+            out, _ = p.communicate()
+            st_file = os.path.join(fz_dir, 'stats_%d.json' % w_)
+            if os.path.exists(st_file):
+                try:
+                    s_ = json.load(open(st_file))
+                    for k in tok:
+                        tok[k] += s_.get(k, 0)
+                except Exception:
+                    pass
+            if p.returncode != 0:
+                m_ = [l for l in out.split('\n') if 'PUML-ORACLE-FAILURE' in l or 'ERROR: AddressSanitizer' in l or 'runtime error' in l or 'Test unit written to' in l]
+                artf = [l.split('written to ')[-1].strip() for l in out.split('\n') if 'Test unit written to' in l and ('crash-' in l or 'leak-' in l)]
+                if artf:
+                    lines.append('VIOLATION property=%s replay=%s' % (prop, artf[0]))
+                    lines.append('  PlantUML tokenizer: ' + ' | '.join(m_)[:600])
+                    lines.append('  ' + ' '.join(out[out.find('PUML-ORACLE-FAILURE'):].split('\n')[:12])[:900])
+                    violations += 1
+                else:
+                    errors.append(dict(error='puml_fuzz ended with rc=%s without a crash artifact (inconclusive): %s' % (p.returncode, out[-500:])))
+            sf = os.path.join(fz_dir, 'sample_%d.txt' % w_)
+            if sample_doc is None and os.path.exists(sf):
+                sample_doc = open(sf).read()
+        shutil.rmtree(corpus, ignore_errors=True)
+    # ---- C. PlantUML guard parser vs the C++ compiler --------------------------------------------
+    nexpr = 60 if quick else 600
+    chunks = [pumlguard.gen_exprs('%s/%d' % (seed, c), 60) for c in range(nexpr // 60)]
+    gdir = os.path.join(build.BUILD, 'pumlguard_' + build.tree_hash()[:16])
+    os.makedirs(gdir, exist_ok=True)
+
+    def one_chunk(ci):
+        ex_ = chunks[ci]
+        src = os.path.join(gdir, 'g_%d_%d.cpp' % (seed, ci))
+        binp = os.path.join(gdir, 'g_%d_%d' % (seed, ci))
+        open(src, 'w').write(pumlguard.emit_tu(ex_))
+        c = subprocess.run(['g++', '-std=gnu++20', '-O0', '-w', '-I' + os.path.join(build.REPO, 'include'), src, '-o', binp], capture_output=True, text=True)
+        if c.returncode != 0:
+            return ci, None, c.stderr[-1500:]
+        r_ = subprocess.run([binp], capture_output=True, text=True, timeout=300)
+        return ci, r_.stdout, None
+    from concurrent.futures import ThreadPoolExecutor
+    gtotal = gnt = 0
+    gsamples = []
+    with ThreadPoolExecutor(max_workers=8) as tp:
+        for ci, out, err in tp.map(one_chunk, range(len(chunks))):
+            if out is None:
+                errors.append(dict(error='guard TU does not compile (a parsed guard type is ill-formed?): ' + err))
+                continue
+            for l in out.split('\n'):
+                if l.startswith('OK') or l.startswith('FAIL'):
+                    k = int(l.split()[1])
+                    gtotal += 1
+                    if pumlguard.nontrivial(chunks[ci][k]):
+                        gnt += 1
+                    if len(gsamples) < 3 and pumlguard.nontrivial(chunks[ci][k]):
+                        gsamples.append(chunks[ci][k])
+                if l.startswith('FAIL'):
+                    k = int(l.split()[1])
+                    os.makedirs(REPLAYS_NEW, exist_ok=True)
+                    p = os.path.join(REPLAYS_NEW, 'C14_pumlguard_%s.json' % hashlib.sha256(chunks[ci][k].encode()).hexdigest()[:10])
+                    json.dump(dict(property=prop, kind='pumlguard', expr=chunks[ci][k], result=l), open(p, 'w'), indent=1)
+                    lines.append('VIOLATION property=%s replay=%s' % (prop, p))
+                    lines.append('  PlantUML guard "%s" is not evaluated like the C++ expression: %s' % (chunks[ci][k], l))
+                    violations += 1
+    # committed regression replays (guard expressions and tokenizer inputs)
+    for p in sorted(glob.glob(os.path.join(VERIF, 'replays', prop + '_*.json'))):
+        w_ = json.load(open(p))
+        if w_.get('kind') == 'pumlguard':
+            ok, detail = replay_pumlguard(w_['expr'])
+            if not ok:
+                lines.append('VIOLATION property=%s replay=%s' % (prop, p))
+                lines.append('  PlantUML guard "%s": %s' % (w_['expr'], detail))
+                violations += 1
+    evaluations = evalA + tok['docs'] + gtotal
+    distinct = len(ntA) + tok['distinct_nontrivial'] + gnt
+    if sample_doc:
+        samples.append(dict(part='tokenizer fuzz', document=sample_doc.split('\n')[:12]))
+    for g in gsamples:
+        samples.append(dict(part='guard parser', expression=g))
+    ev = dict(property_id=prop, tier=tier, seed=seed, level='exploration',
+              coverage=dict(evaluations=evaluations, distinct_nontrivial=distinct, rule=plan['rule'], samples=samples or ['(none)'],
+                            frontend_differential=dict(cases=evalA, distinct_nontrivial=len(ntA), specs=len(specsA) + len(specsB), binaries=len(todo) - len(failed),
+                                                       groups=len(jobs), classes=classes, not_compiling=failed[:10]),
+                            tokenizer_fuzz=dict(tok, engine='libFuzzer -seed=%d, ASan+UBSan, oracle in target' % seed),
+                            guard_parser=dict(expressions=gtotal, nontrivial=gnt, valuations_each=32),
+                            not_covered='eUML front-end (BOOST_MSM_EUML_TRANSITION_TABLE) is not emitted by this revision', harness_errors=errors[:6]),
+              assumptions=plan.get('assumptions', []), wall_s=round(time.time() - t0, 2), violations=violations)
+    os.makedirs(EVID, exist_ok=True)
+    json.dump(ev, open(os.path.join(EVID, prop + '.json'), 'w'), indent=1, default=str)
+    for l in lines:
+        print(l)
+    print('%s %s: frontend cases=%d (distinct nontrivial %d), tokenizer docs=%d rows=%d, guard expressions=%d; violations=%d wall=%.0fs' %
+          (prop, tier, evalA, len(ntA), tok['docs'], tok['rows'], gtotal, violations, time.time() - t0))
+    if violations:
+        return 1
+    if errors or evalA == 0 or tok['docs'] == 0 or gtotal == 0:
+        for e in errors[:5]:
+            print('HARNESS-ERROR:', json.dumps(e)[:1500])
+        return 2
+    return 0
+
+
+def replay_pumlguard(expr):
+    import subprocess
+    from . import pumlguard
+    gdir = os.path.join(build.BUILD, 'pumlguard_replay')
+    os.makedirs(gdir, exist_ok=True)
+    h = hashlib.sha256((expr + build.tree_hash()).encode()).hexdigest()[:12]
+    src, binp = os.path.join(gdir, h + '.cpp'), os.path.join(gdir, h)
+    open(src, 'w').write(pumlguard.emit_tu([expr]))
+    c = subprocess.run(['g++', '-std=gnu++20', '-O0', '-w', '-I' + os.path.join(build.REPO, 'include'), src, '-o', binp], capture_output=True, text=True)
+    if c.returncode != 0:
+        return False, 'does not compile: ' + c.stderr[-300:]
+    out = subprocess.run([binp], capture_output=True, text=True).stdout
+    return ('FAIL' not in out), out.strip()
